@@ -1,4 +1,356 @@
-import Momo.Model.Table
-/-! C07 property theorems (under construction) -/
+import Momo.Proof.TableCreate
+/-!
+# C07 — DataTable queries equal a brute-force scan; unique indexes are never violated
+
+Property theorems only. Model: `Momo/Model/Table.lean`; lemmas: `Momo/Proof/Table*.lean`.
+
+Statement (properties.jsonl): a DataTable behaves as an ordered list of rows under any history of add, insert,
+update (whole row or one column), remove (by number, reference, range, predicate), extract, assign, clear and copy,
+with every unique index enforced: an operation that would make two rows equal on a unique index's columns is
+refused, reports the conflicting row, and leaves the table unchanged, as does any row-level operation interrupted
+by an allocation failure. Every query - Select/SelectCount with any combination of column equalities and filter,
+FindByUniqueHash, FindByMultiHash (including values that match no row), … - returns exactly what a brute-force
+scan of the current rows returns, regardless of which unique/multi indexes exist or when they were created. Row
+numbers, when kept, equal list positions.
+
+Universally quantified parameters of every theorem: `vis` (the order in which an index hash table visits its
+entries on a lookup; only the C01/C13 contract `Complete vis` is assumed), `acc` (`DataTraits::AccumulateHashCode`,
+any function; for queries by key tuple it must not depend on the column order, `AccComm`), the row addresses, the
+fault position `f`, `keep` (`keepRowNumber`), `maxEq` (`selectEqualityMaxCount`).
+
+`Inv acc keep t` = distinct raws at distinct addresses, row numbers = positions (when kept), every unique index holds
+exactly the rows, each under the hash code of its current key, and no two rows agree on its columns; every multi
+index partitions the rows into groups of equal keys, different groups have different keys, full segments sorted.
+`scan t eqs filt` = the brute-force scan (ids of the rows, in table order, that satisfy the equalities and the filter).
+-/
 namespace Momo.Table
+open List
+
+/-! ### queries = brute-force scan -/
+
+/-- *"Every query - Select/SelectCount with any combination of column equalities and filter … returns exactly what
+a brute-force scan of the current rows returns"*: `Select` returns exactly the rows of the scan (as a multiset: the
+order through a multi index is the storage order of the group, which the property does not specify) and
+`SelectCount` its size - for every number of equalities (more than `selectEqualityMaxCount` included), every filter. -/
+theorem C07_select_eq_scan {vis : Vis} (hc : Complete vis) (acc : Acc) (hacc : AccComm acc) (keep : Bool) (maxEq : Nat)
+    (t : Table) (hinv : Inv acc keep t) (eqs : List (Nat × Nat)) (filt : Row → Bool) (hnd : (eqs.map (·.1)).Nodup) :
+    (select vis acc maxEq t eqs filt).Perm (scan t eqs filt) ∧
+    selectCount vis acc maxEq t eqs filt = (scan t eqs filt).length :=
+  ⟨select_perm_scan hc acc hacc keep maxEq t hinv eqs filt hnd,
+   selectCount_eq_scan hc acc hacc keep maxEq t hinv eqs filt hnd⟩
+
+/-- *"regardless of which unique/multi indexes exist"*: whichever admissible index `pvSelect` could pick (any unique
+or multi index all of whose columns are among the equalities, or none), the selection is the scan; through the full
+scan or a unique index even in table order. -/
+theorem C07_select_any_index {vis : Vis} (hc : Complete vis) (acc : Acc) (hacc : AccComm acc) (keep : Bool)
+    (t : Table) (hinv : Inv acc keep t) (eqs : List (Nat × Nat)) (hnd : (eqs.map (·.1)).Nodup) (filt : Row → Bool)
+    (path : Path) (hv : ValidPath t (eqs.map (·.1)) path) :
+    (selectVia vis acc t eqs filt path).Perm (scan t eqs filt) ∧
+    ((∀ i, path ≠ .multi i) → selectVia vis acc t eqs filt path = scan t eqs filt) :=
+  selectVia_perm_scan hc acc hacc keep t hinv eqs hnd filt path hv
+
+/-- the index `pvSelect` picks is always admissible -/
+theorem C07_choosePath_valid (t : Table) (eqs : List (Nat × Nat)) : ValidPath t (eqs.map (·.1)) (choosePath t eqs) :=
+  choosePath_valid t eqs
+
+/-- *"FindByUniqueHash … (including values that match no row)"*: the answer (for the index named or the one found by
+its columns) is the scan: the one row with these values, or nothing. -/
+theorem C07_findByUnique_eq_scan {vis : Vis} (hc : Complete vis) (acc : Acc) (hacc : AccComm acc) (keep : Bool)
+    (t : Table) (hinv : Inv acc keep t) (idx : Option Nat) (eqs : List (Nat × Nat)) (hnd : (eqs.map (·.1)).Nodup)
+    (hidx : ∀ i, idx = some i → ∃ u, t.uidx[i]? = some u ∧ sameCols u.cols (eqs.map (·.1)) = true)
+    (L : List Nat) (h : findByUnique vis acc t idx eqs = some L) :
+    L = scan t eqs (fun _ => true) ∧ L.length ≤ 1 := by
+  have hL := findByUnique_eq_scan hc acc hacc keep t hinv idx eqs hnd hidx L h
+  refine ⟨hL, ?_⟩
+  unfold findByUnique at h
+  cases hti : trueIndex (t.uidx.map (·.cols)) idx (eqs.map (·.1)) with
+  | none => rw [hti] at h; simp at h
+  | some i =>
+    rw [hti] at h
+    simp only [Option.some.injEq] at h
+    rw [← h]
+    unfold findRawsU
+    split
+    · simp
+    · split <;> simp
+
+/-- *"FindByMultiHash (including values that match no row)"*: exactly the rows of the scan (F8 was the case of an
+absent value). -/
+theorem C07_findByMulti_eq_scan {vis : Vis} (hc : Complete vis) (acc : Acc) (hacc : AccComm acc) (keep : Bool)
+    (t : Table) (hinv : Inv acc keep t) (idx : Option Nat) (eqs : List (Nat × Nat)) (hnd : (eqs.map (·.1)).Nodup)
+    (hidx : ∀ i, idx = some i → ∃ m, t.midx[i]? = some m ∧ sameCols m.cols (eqs.map (·.1)) = true)
+    (L : List Nat) (h : findByMulti vis acc t idx eqs = some L) : L.Perm (scan t eqs (fun _ => true)) :=
+  findByMulti_perm_scan hc acc hacc keep t hinv idx eqs hnd hidx L h
+
+/-! ### add -/
+
+/-- *"an operation that would make two rows equal on a unique index's columns is refused, reports the conflicting
+row, and leaves the table unchanged, as does any row-level operation (add …) interrupted by an allocation failure"*,
+for `TryAdd` of a new raw (fresh identity, address not in use), every fault position `f`:
+the invariant is kept; the answer is `ok` only if no row agrees with the new one on the columns of any unique index,
+and then the row is appended with its position as number; `dup x j` names a row `x` that agrees with the new one on
+the columns of unique index `j`, the first index with such a row, and the table is unchanged; `bad_alloc` only under
+a fault, table unchanged. (`TEquiv`: same rows, same unique indexes, multi indexes equal up to the order inside a
+group - `pvAdd` may have sorted a segment before the failure.) -/
+theorem C07_add {vis : Vis} (hc : Complete vis) (acc : Acc) (keep : Bool) (t : Table) (hinv : Inv acc keep t) (r : Row)
+    (hr : r.id ∉ ids t.rows) (hra : r.addr ∉ t.rows.map (·.addr)) (f : Fault) :
+    Inv acc keep (tryAdd vis acc keep t r f).1 ∧
+    match (tryAdd vis acc keep t r f).2 with
+    | .ok => (tryAdd vis acc keep t r f).1.rows = t.rows ++ [setNum keep r t.rows.length] ∧
+             (∀ u ∈ t.uidx, ∀ x ∈ t.rows, keyEq u.cols r.vals x.vals = false)
+    | .dup x j => TEquiv t (tryAdd vis acc keep t r f).1 ∧
+             ∃ u row, t.uidx[j]? = some u ∧ row ∈ t.rows ∧ row.id = x ∧ keyEq u.cols r.vals row.vals = true ∧
+               ∀ i' u', i' < j → t.uidx[i']? = some u' → ∀ y ∈ t.rows, keyEq u'.cols r.vals y.vals = false
+    | .badAlloc => TEquiv t (tryAdd vis acc keep t r f).1 ∧ f ≠ .none
+    | .outOfRange => False :=
+  tryAdd_spec hc acc keep t hinv r hr hra f
+
+/-- without a fault `TryAdd` never answers `bad_alloc`: it is accepted exactly when the brute-force check finds no
+row with the same key in a unique index -/
+theorem C07_add_ok_iff {vis : Vis} (hc : Complete vis) (acc : Acc) (keep : Bool) (t : Table) (hinv : Inv acc keep t)
+    (r : Row) (hr : r.id ∉ ids t.rows) (hra : r.addr ∉ t.rows.map (·.addr)) :
+    (tryAdd vis acc keep t r .none).2 = .ok ↔ ∀ u ∈ t.uidx, ∀ x ∈ t.rows, keyEq u.cols r.vals x.vals = false := by
+  have h := (tryAdd_spec hc acc keep t hinv r hr hra .none).2
+  constructor
+  · intro e; rw [e] at h; exact h.2
+  · intro hno
+    cases hres : (tryAdd vis acc keep t r .none).2 with
+    | ok => rfl
+    | dup x j =>
+      rw [hres] at h
+      obtain ⟨_, u, row, hu, hrow, _, hk, _⟩ := h
+      rw [hno u (mem_of_getElem? hu) row hrow] at hk
+      exact absurd hk (by simp)
+    | badAlloc => rw [hres] at h; exact absurd rfl h.2
+    | outOfRange => rw [hres] at h; exact h.elim
+
+/-- *"clear"*: no rows, the invariant holds -/
+theorem C07_clear (acc : Acc) (keep : Bool) (t : Table) (hinv : Inv acc keep t) :
+    Inv acc keep (clear t) ∧ (clear t).rows = [] :=
+  clear_spec acc keep t hinv
+
+/-! ### insert, remove, extract, assign, copy, index creation -/
+
+/-- *"insert"*: `TryInsert(n, row)` is `TryAdd` with the accepted row standing at position `n` (rows from there on
+renumbered); refused / failed: table unchanged, conflicting row reported; `n` beyond the end: `out_of_range`, table
+untouched. -/
+theorem C07_insert {vis : Vis} (hc : Complete vis) (acc : Acc) (keep : Bool) (t : Table) (hinv : Inv acc keep t) (n : Nat)
+    (r : Row) (hr : r.id ∉ ids t.rows) (hra : r.addr ∉ t.rows.map (·.addr)) (f : Fault) :
+    Inv acc keep (tryInsert vis acc keep t n r f).1 ∧
+    match (tryInsert vis acc keep t n r f).2 with
+    | .ok => n ≤ t.rows.length ∧
+             (tryInsert vis acc keep t n r f).1.rows =
+               setNumbers keep n (t.rows.take n ++ setNum keep r t.rows.length :: t.rows.drop n) ∧
+             (∀ u ∈ t.uidx, ∀ x ∈ t.rows, keyEq u.cols r.vals x.vals = false)
+    | .dup x j => TEquiv t (tryInsert vis acc keep t n r f).1 ∧
+             ∃ u row, t.uidx[j]? = some u ∧ row ∈ t.rows ∧ row.id = x ∧ keyEq u.cols r.vals row.vals = true ∧
+               ∀ i' u', i' < j → t.uidx[i']? = some u' → ∀ y ∈ t.rows, keyEq u'.cols r.vals y.vals = false
+    | .badAlloc => TEquiv t (tryInsert vis acc keep t n r f).1 ∧ f ≠ .none
+    | .outOfRange => t.rows.length < n ∧ (tryInsert vis acc keep t n r f).1 = t :=
+  tryInsert_spec hc acc keep t hinv n r hr hra f
+
+/-- *"remove (by number …), extract"*: `pvExtractRaw(n, keepOrder)` (`ExtractRow`, `Remove(number)`): the row at
+position `n` leaves the table and every index (invariant kept); with `keepOrder` the later rows move up and are
+renumbered, without it the last row takes its place and its number. Out of range: nothing happens. The lookups of
+`RemoveRaw` do not allocate, so there is no failure case. -/
+theorem C07_extract {vis : Vis} (hc : Complete vis) (acc : Acc) (keep : Bool) (t : Table) (hinv : Inv acc keep t) (n : Nat)
+    (keepOrder : Bool) :
+    Inv acc keep (extract vis acc keep t n keepOrder).1 ∧
+    match t.rows[n]? with
+    | none => extract vis acc keep t n keepOrder = (t, none)
+    | some r => (extract vis acc keep t n keepOrder).2 = some r ∧
+        (extract vis acc keep t n keepOrder).1.rows =
+          if keepOrder then setNumbers keep n (t.rows.eraseIdx n)
+          else if n < t.rows.length - 1 then (t.rows.set n (setNum keep (t.rows.getLastD r) n)).dropLast
+          else t.rows.dropLast :=
+  extract_spec hc acc keep t hinv n keepOrder
+
+/-- *"remove (by … reference)"*: the row with this identity (found through its stored number, or by searching when
+numbers are not kept) leaves the table, order kept; an identity that is not in the table: nothing happens. -/
+theorem C07_extractRef {vis : Vis} (hc : Complete vis) (acc : Acc) (keep : Bool) (t : Table) (hinv : Inv acc keep t)
+    (id : Nat) :
+    Inv acc keep (extractRef vis acc keep t id).1 ∧
+    ((id ∉ ids t.rows ∧ extractRef vis acc keep t id = (t, none)) ∨
+     (∃ n r, t.rows[n]? = some r ∧ r.id = id ∧ (extractRef vis acc keep t id).2 = some r ∧
+        (extractRef vis acc keep t id).1.rows = setNumbers keep n (t.rows.eraseIdx n))) :=
+  extractRef_spec hc acc keep t hinv id
+
+/-- *"remove (by … range …)"*: the rows named leave, the others keep their order and are renumbered. -/
+theorem C07_removeRows (acc : Acc) (keep : Bool) (t : Table) (hinv : Inv acc keep t) (rm : List Nat) :
+    Inv acc keep (removeRows keep t rm) ∧
+    (removeRows keep t rm).rows = setNumbers keep 0 (t.rows.filter (fun r => !rm.contains r.id)) :=
+  removeRows_spec acc keep t hinv rm
+
+/-- *"remove (by … predicate)"* -/
+theorem C07_removePred (acc : Acc) (keep : Bool) (t : Table) (hinv : Inv acc keep t) (p : Row → Bool) :
+    Inv acc keep (removePred keep t p) ∧
+    (removePred keep t p).rows = setNumbers keep 0 (t.rows.filter (fun r => !p r)) :=
+  removePred_spec acc keep t hinv p
+
+/-- *"assign"*: the rows named, in the order of their first mention, renumbered; all others leave. -/
+theorem C07_assign (acc : Acc) (keep : Bool) (t : Table) (hinv : Inv acc keep t) (named : List Nat) :
+    Inv acc keep (assign keep t named) ∧
+    (assign keep t named).rows = setNumbers keep 0 ((firstOccs [] named).filterMap (rowOf t.rows)) :=
+  assign_spec acc keep t hinv named
+
+/-- *"copy"*: the copy (optionally filtered) holds the imported rows in order, renumbered, with the same index
+definitions, and satisfies the invariant. Hypothesis on the imported rows: distinct identities and addresses, pairwise
+different on the columns of every unique index - which rows taken from a table are (`C07_rows_distinct`). -/
+theorem C07_copy {vis : Vis} (hc : Complete vis) (acc : Acc) (keep : Bool) (t : Table) (hinv : Inv acc keep t)
+    (newRows : List Row) (hnd : (ids newRows).Nodup) (hai : AddrInj newRows)
+    (hpw : ∀ u ∈ t.uidx, newRows.Pairwise (fun a b => keyEq u.cols a.vals b.vals = false)) :
+    Inv acc keep (copyOf vis acc keep t newRows) ∧ (copyOf vis acc keep t newRows).rows = setNumbers keep 0 newRows ∧
+    (copyOf vis acc keep t newRows).uidx.map (·.cols) = t.uidx.map (·.cols) ∧
+    (copyOf vis acc keep t newRows).midx.map (·.cols) = t.midx.map (·.cols) :=
+  copyOf_spec hc acc keep t hinv newRows hnd hai hpw
+
+/-- *"unique indexes are never violated"*: in a table that satisfies the invariant no two rows agree on the columns of a
+unique index. -/
+theorem C07_rows_distinct {acc : Acc} {keep : Bool} {t : Table} (hinv : Inv acc keep t) {u : UIdx} (hu : u ∈ t.uidx) :
+    t.rows.Pairwise (fun a b => keyEq u.cols a.vals b.vals = false) :=
+  rows_pairwise_distinct hinv hu
+
+/-- *"regardless of … when they were created"*: a unique index created on a table with data satisfies the invariant
+(so every query theorem applies to it); if two rows agree on its columns the table is unchanged and a row that agrees
+with an earlier one is reported (`UniqueIndexViolation`). -/
+theorem C07_createUnique {vis : Vis} (hc : Complete vis) (acc : Acc) (keep : Bool) (t : Table) (hinv : Inv acc keep t)
+    (cols : List Nat) (hcn : cols.Nodup) :
+    Inv acc keep (createUnique vis acc t cols).1 ∧ (createUnique vis acc t cols).1.rows = t.rows ∧
+    match (createUnique vis acc t cols).2 with
+    | .ok i => ∃ u, (createUnique vis acc t cols).1.uidx[i]? = some u ∧ sameCols u.cols cols = true
+    | .error raw => (createUnique vis acc t cols).1 = t ∧
+        ∃ r x, r ∈ t.rows ∧ x ∈ t.rows ∧ r.id = raw ∧ x.id ≠ r.id ∧ keyEq cols r.vals x.vals = true :=
+  createUnique_spec hc acc keep t hinv cols hcn
+
+/-- … and a multi index created on a table with data. -/
+theorem C07_createMulti {vis : Vis} (hc : Complete vis) (acc : Acc) (keep : Bool) (t : Table) (hinv : Inv acc keep t)
+    (cols : List Nat) (hcn : cols.Nodup) :
+    Inv acc keep (createMulti vis acc t cols).1 ∧ (createMulti vis acc t cols).1.rows = t.rows ∧
+    ∃ m, (createMulti vis acc t cols).1.midx[(createMulti vis acc t cols).2]? = some m ∧ sameCols m.cols cols = true :=
+  createMulti_spec hc acc keep t hinv cols hcn
+
+/-- *"Row numbers, when kept, equal list positions"* (part of the invariant every operation keeps). -/
+theorem C07_numbers_eq_positions {acc : Acc} {t : Table} (hinv : Inv acc true t) (i : Nat) (r : Row)
+    (h : t.rows[i]? = some r) : r.num = i :=
+  hinv.nums rfl i r h
+
+/-! ### single-column update: finding F9 -/
+
+/-- the full statement for the single-column update: the invariant is kept for every hash-table behaviour allowed by
+the contract. It is **false** for the code as it is (finding F9): see `C07_updateCol_F9_witness`. -/
+def C07_updateCol_correct : Prop :=
+  ∀ (vis : Vis), Complete vis → ∀ (acc : Acc) (keep : Bool) (t : Table), Inv acc keep t →
+    ∀ (n col v : Nat) (f : Fault), Inv acc keep (tryUpdateCol vis acc t n col v f).1
+
+namespace C07ex
+
+/-- a hash table with 4 buckets and probe sequences of length 2: a lookup of hash code `h` examines the entries of
+buckets `h % 4` and `(h + 1) % 4`, newest first -/
+def visW : Vis := fun h hs =>
+  (List.range hs.length).reverse.filter (fun i => hs.getD i 0 % 4 == h % 4 || hs.getD i 0 % 4 == (h + 1) % 4)
+
+theorem visW_complete : Complete visW := by
+  intro h hs i hi
+  rcases List.getElem?_eq_some_iff.mp hi with ⟨h1, h2⟩
+  simp [visW, h1, h2]
+
+def accW : Acc := fun h _ v => h + v
+
+theorem accW_comm : AccComm accW := by
+  intro h c1 v1 c2 v2; simp only [accW]; omega
+
+/-- one unique index over column 0, one row with the value 4 -/
+def w1 : Table := (tryAdd visW accW false { uidx := [{ cols := [0] }] } ⟨1, 10, 0, [4]⟩ .none).1
+
+/-- … after `row[col0] = 5` -/
+def w2 : Table := (tryUpdateCol visW accW w1 0 0 5 .none).1
+
+theorem w1_inv : Inv accW false w1 :=
+  (tryAdd_spec visW_complete accW false _ (Inv_empty _ _ _ rfl (by decide) (by decide)) _ (by decide) (by decide) .none).1
+
+end C07ex
+
+open C07ex in
+/-- **F9 witness.** A table with the unique index (col 0) and the single row `(4)`, in a hash table where the new
+entry for key 5 lies on the probe path of key 4 and is met first: `Update(row, col0, 5)` answers `ok`, the row reads 5,
+but `PrepareRemove` found the entry just added, `AcceptRemove` erased it, and the index keeps the row where key 4
+belongs: `FindByUniqueHash(col0 = 5)` returns nothing although the scan finds row 1. Hence the invariant is lost. -/
+theorem C07_updateCol_F9_witness :
+    (tryUpdateCol visW accW w1 0 0 5 .none).2 = .ok ∧ w2.rows.map (·.vals) = [[5]] ∧
+    scan w2 [(0, 5)] (fun _ => true) = [1] ∧ findByUnique visW accW w2 (some 0) [(0, 5)] = some [] ∧
+    ¬ C07_updateCol_correct := by
+  refine ⟨by decide, by decide, by decide, by decide, ?_⟩
+  intro hcorrect
+  have hinv : Inv accW false w2 := hcorrect visW visW_complete accW false w1 w1_inv 0 0 5 .none
+  have := findByUnique_eq_scan visW_complete accW accW_comm false w2 hinv (some 0) [(0, 5)] (by decide)
+    (fun i hi => by
+      simp only [Option.some.injEq] at hi; subst hi
+      exact ⟨{ cols := [0], ents := [⟨1, 4⟩] }, by decide, by decide⟩) [] (by decide)
+  exact absurd this (by decide)
+
+/-! ### non-vacuity: a concrete table with a unique and a multi index -/
+
+namespace C07ex
+
+def visAll : Vis := fun _ hs => List.range hs.length
+
+theorem visAll_complete : Complete visAll := by
+  intro h hs i hi
+  rcases List.getElem?_eq_some_iff.mp hi with ⟨h1, _⟩
+  simp [visAll, h1]
+
+def accSum : Acc := fun h c v => h + (c + 1) * (v + 1)
+
+theorem accSum_comm : AccComm accSum := by
+  intro h c1 v1 c2 v2; simp only [accSum]; omega
+
+/-- unique(col0, col1), multi(col0), no rows -/
+def t0 : Table := { uidx := [{ cols := [0, 1] }], midx := [{ cols := [0] }] }
+def t1 : Table := (tryAdd visAll accSum true t0 ⟨1, 10, 0, [5, 1, 7]⟩ .none).1
+def t2 : Table := (tryAdd visAll accSum true t1 ⟨2, 20, 0, [5, 2, 7]⟩ .none).1
+/-- three rows, two of them with the same key in the multi index -/
+def t3 : Table := (tryAdd visAll accSum true t2 ⟨3, 5, 0, [6, 1, 7]⟩ .none).1
+
+theorem t0_inv : Inv accSum true t0 := Inv_empty _ _ _ rfl (by decide) (by decide)
+theorem t1_inv : Inv accSum true t1 := (tryAdd_spec visAll_complete accSum true t0 t0_inv _ (by decide) (by decide) .none).1
+theorem t2_inv : Inv accSum true t2 := (tryAdd_spec visAll_complete accSum true t1 t1_inv _ (by decide) (by decide) .none).1
+theorem t3_inv : Inv accSum true t3 := (tryAdd_spec visAll_complete accSum true t2 t2_inv _ (by decide) (by decide) .none).1
+
+end C07ex
+
+open C07ex in
+/-- the hypotheses of the query theorems hold for a table with three rows, a unique and a multi index … -/
+example : Inv accSum true t3 ∧ Complete visAll ∧ AccComm accSum := ⟨t3_inv, visAll_complete, accSum_comm⟩
+open C07ex in
+example : t3.rows.map (fun r => (r.id, r.num, r.vals)) = [(1, 0, [5, 1, 7]), (2, 1, [5, 2, 7]), (3, 2, [6, 1, 7])] := by decide
+open C07ex in
+example : t3.midx.map (·.groups) = [[⟨1, 6, [2]⟩, ⟨3, 7, []⟩]] := by decide
+open C07ex in
+/-- … `Select(col0 = 5)` goes through the multi index and returns both rows, … -/
+example : choosePath t3 [(0, 5)] = .multi 0 ∧ select visAll accSum 6 t3 [(0, 5)] (fun _ => true) = [1, 2] ∧
+    scan t3 [(0, 5)] (fun _ => true) = [1, 2] := by decide
+open C07ex in
+/-- … `Select(col0 = 5, col1 = 2)` through the unique index, `Select(col1 = 1)` by a full scan, an absent value
+returns nothing, … -/
+example : choosePath t3 [(0, 5), (1, 2)] = .unique 0 ∧ select visAll accSum 6 t3 [(0, 5), (1, 2)] (fun _ => true) = [2] ∧
+    choosePath t3 [(1, 1)] = .scan ∧ select visAll accSum 6 t3 [(1, 1)] (fun _ => true) = [1, 3] ∧
+    findByMulti visAll accSum t3 none [(0, 9)] = some [] ∧ findByUnique visAll accSum t3 none [(1, 1), (0, 6)] = some [3] := by
+  decide
+open C07ex in
+/-- … a row with the key (5, 1) is refused and row 1 reported; with a different key it is accepted; a failure inside
+the multi index (step 1) leaves the table unchanged. -/
+example : (tryAdd visAll accSum true t3 ⟨4, 30, 0, [5, 1, 9]⟩ .none).2 = .dup 1 0 ∧
+    (tryAdd visAll accSum true t3 ⟨4, 30, 0, [5, 1, 9]⟩ .none).1 = t3 ∧
+    (tryAdd visAll accSum true t3 ⟨4, 30, 0, [5, 3, 9]⟩ .none).2 = .ok ∧
+    tryAdd visAll accSum true t3 ⟨4, 30, 0, [5, 3, 9]⟩ (.step 1) = (t3, .badAlloc) := by decide
+
+open C07ex in
+/-- … removing row 1 (order kept) leaves rows 2 and 3 renumbered and the multi group of key 5 with row 2 alone; indexes
+created after the data answer the same queries. -/
+example : (extract visAll accSum true t3 0 true).1.rows.map (fun r => (r.id, r.num)) = [(2, 0), (3, 1)] ∧
+    (extract visAll accSum true t3 0 true).1.midx.map (·.groups) = [[⟨2, 6, []⟩, ⟨3, 7, []⟩]] ∧
+    (createMulti visAll accSum t3 [1]).2 = 1 ∧
+    select visAll accSum 6 (createMulti visAll accSum t3 [1]).1 [(1, 1)] (fun _ => true) = [1, 3] ∧
+    (createUnique visAll accSum t3 [0]).2 = .error 2 := by decide
+
 end Momo.Table
